@@ -124,7 +124,23 @@ fn parent<P: Property>(p: &P, tier: Tier) -> i32 {
                         ok_shards += 1;
                         total.merge(r);
                     }
-                    _ => problems.push(format!("shard {} died: {:?} {}", s, status, err.lines().rev().take(3).collect::<Vec<_>>().join(" | "))),
+                    _ => {
+                        let inflight = inflight_path(p.id(), tier, s);
+                        let desc = std::fs::read_to_string(&inflight).unwrap_or_default();
+                        if p.crash_is_violation() && !desc.is_empty() && !status.success() && status.code() != Some(3) {
+                            // the worker died on a signal / abort while running a case: for this property that is the violation
+                            let dir = root().join("replays").join(p.id());
+                            let _ = std::fs::create_dir_all(&dir);
+                            let path = dir.join(format!("new-crash-{:016x}.json", hash_of(&desc)));
+                            if let Ok(v) = serde_json::from_str::<serde_json::Value>(&desc) {
+                                let rf = serde_json::json!({"property": p.id(), "signature": "worker-crash", "message": format!("worker died: {:?}", status), "description": v["description"], "case": v["case"]});
+                                let _ = std::fs::write(&path, serde_json::to_string_pretty(&rf).unwrap());
+                            }
+                            total.violations.push(Violation { sig: "worker-crash".into(), msg: format!("worker process died ({:?}) while running the case:\n{}", status, desc.chars().take(3000).collect::<String>()), replay: path.to_string_lossy().to_string() });
+                        } else {
+                            problems.push(format!("shard {} died: {:?} {} | in-flight case: {}", s, status, err.lines().rev().take(3).collect::<Vec<_>>().join(" | "), desc.chars().take(600).collect::<String>()));
+                        }
+                    }
                 }
                 let _ = std::fs::remove_file(&out);
             } else {
@@ -140,6 +156,8 @@ fn parent<P: Property>(p: &P, tier: Tier) -> i32 {
     for (sig, (count, _)) in &total.known {
         if let Some(k) = known_for(&known, p.id(), sig) {
             println!("KNOWN-FINDING: property={} {} [{} x{}]", p.id(), k.what, k.id, count);
+        } else {
+            println!("UNLISTED (VERIF_NOSTOP development mode) x{} [{}]", count, sig);
         }
     }
     let note = if problems.is_empty() { "all shards completed".to_string() } else { problems.join("; ") };
@@ -185,6 +203,12 @@ macro_rules! dispatch {
             "C02" => $f(&props::c02::C02, $($args),*),
             "C03" => $f(&props::c03::C03, $($args),*),
             "C04" => $f(&props::c04::C04, $($args),*),
+            "C09" => $f(&props::c09::C09, $($args),*),
+            "C10" => $f(&props::c10::C10, $($args),*),
+            "C28" => $f(&props::c28::C28, $($args),*),
+            "C11" => $f(&props::c11::C11, $($args),*),
+            "C12" => $f(&props::c12::C12, $($args),*),
+            "C13" => $f(&props::c13::C13, $($args),*),
             o => { eprintln!("unknown property {}", o); std::process::exit(2) }
         }
     };
